@@ -168,6 +168,24 @@ def splice(segs, fn_name, directives, cfile):
             if not mm:
                 raise LostAnchor('for loop without `in` in %s' % fn_name)
             edits.append((mm.end(), order, 'insert', (' %s:' % lab, note)))
+        elif d == 'arm_end':
+            # structural anchor: the block opened at the end of the K-th line matching the regex (a match arm head)
+            mm = re.match(r'(\d+)\s+/(.*)/\s*$', arg)
+            if not mm:
+                raise ValueError('%s:%d bad @%s argument' % (cfile, ln, d))
+            kk, rx = int(mm.group(1)), re.compile(mm.group(2))
+            hits = []
+            pos = ob + 1
+            for line in text[ob + 1:cb].split('\n'):
+                st = line.rstrip()
+                if st.strip() and rx.search(line) and st.endswith('{') and mask[pos + len(st) - 1]:
+                    hits.append(pos + len(st) - 1)
+                pos += len(line) + 1
+            if len(hits) < kk:
+                raise LostAnchor('fn %s: arm head /%s/ occurrence %d not found (%d hits)' % (fn_name, rx.pattern, kk, len(hits)))
+            close = rl.match_close(text, mask, hits[kk - 1])
+            ls = text.rfind('\n', 0, close) + 1
+            edits.append((ls, order, 'insert', (body, note)))
         elif d in ('before_line', 'after_line'):
             mm = re.match(r'(\d+)\s+/(.*)/\s*$', arg)
             if not mm:
